@@ -4,7 +4,10 @@ package validate
 
 import (
 	"github.com/cedar-policy/cedar-go/internal/vrt"
+	"github.com/cedar-policy/cedar-go/types"
 	"github.com/cedar-policy/cedar-go/x/exp/ast"
+	sast "github.com/cedar-policy/cedar-go/x/exp/schema/ast"
+	"github.com/cedar-policy/cedar-go/x/exp/schema/resolved"
 )
 
 // C19: validation does not write to the schema, the policy, the entities or the
@@ -19,10 +22,27 @@ func VerifC19_ValidateNoWrite() {
 		{Effect: ast.EffectForbid, Principal: ast.ScopeTypeAll{}, Action: ast.ScopeTypeAll{}, Resource: ast.ScopeTypeAll{},
 			Conditions: []ast.ConditionType{{Condition: ast.ConditionUnless, Body: ast.Resource().In(ast.Principal()).Or(ast.Context().Access("k").LessThan(ast.Principal().Access("nums"))).AsIsNode()}}},
 	}
+	// an `action in [...]` scope whose entity slice has spare capacity, against a schema with action groups
+	grp := &sast.Schema{
+		Entities: sast.Entities{"User": sast.Entity{}, "Doc": sast.Entity{}},
+		Actions: sast.Actions{
+			"readers": sast.Action{}, "writers": sast.Action{},
+			"view":    sast.Action{Parents: []sast.ParentRef{sast.ParentRefFromID("readers")}, AppliesTo: &sast.AppliesTo{Principals: []sast.EntityTypeRef{"User"}, Resources: []sast.EntityTypeRef{"Doc"}}},
+			"edit":    sast.Action{Parents: []sast.ParentRef{sast.ParentRefFromID("writers"), sast.ParentRefFromID("readers")}, AppliesTo: &sast.AppliesTo{Principals: []sast.EntityTypeRef{"User"}, Resources: []sast.EntityTypeRef{"Doc"}}},
+		},
+	}
+	grs, gerr := resolved.Resolve(grp)
+	vrt.Assert("C19.validate.group-schema-resolves", gerr == nil)
+	backing := make([]types.EntityUID, 3, 8)
+	backing[0], backing[1], backing[2] = types.NewEntityUID("Action", "readers"), types.NewEntityUID("Action", "writers"), types.NewEntityUID("Action", "view")
+	nIn := 1 + vrt.Choice("actions-in-scope", 3)
+	gpol := &ast.Policy{Effect: ast.EffectPermit, Principal: ast.ScopeTypeAll{}, Action: ast.ScopeTypeInSet{Entities: backing[:nIn]}, Resource: ast.ScopeTypeAll{}}
+	gv := New(grs)
 	env, req, store := c15Env(vrt.Choice("resource-is-folder", 2) == 1)
 	_ = env
-	vrt.Freeze(rs, v, vp, pols, req, store)
+	vrt.Freeze(rs, v, vp, pols, req, store, grs, gv, gpol, backing)
 	vrt.Concurrently(2, func() {
+		_ = gv.Policy("g", gpol)
 		for _, p := range pols {
 			_ = v.Policy("p", p)
 			_ = vp.Policy("p", p)
